@@ -207,6 +207,20 @@ def run_impl(case):
             return labels_of(N(case[1]).predecessor(N(case[2]), bool(case[3])))
         if op == 16:
             return labels_of(N(case[1]).choose_relativity(oname(case[2]), bool(case[3])))
+        if op == 17:
+            # from_wire with the followed pointer targets recorded (Parser.seek instrumented)
+            tr = []
+
+            class TracingParser(dns.wirebase.Parser):
+                def seek(self, where):
+                    super().seek(where)
+                    tr.append(where)
+
+            p = TracingParser(bytes(case[1]), case[2])
+            del tr[:]  # the constructor's own seek to the start offset is not a pointer
+            start = p.current
+            n = dns.name.from_wire_parser(p)
+            return [labels_of(n), p.current - start, list(tr)]
     except Exception as e:  # noqa
         return exc_code(e)
     raise ValueError(f"bad op {op}")
